@@ -100,7 +100,22 @@ func C04(c *Ctx) {
 					return ok && !f.Before && f.Const && f.Event == fail
 				}, Goal: func(i ssa.Instruction) bool {
 					if ret, ok := i.(*ssa.Return); ok {
-						return !c.isErrorExit(ret)
+						if !c.isErrorExit(ret) {
+							return true
+						}
+						// handing the checker's own verdict back as the handler's error is not
+						// a report either: "wrong credential" leaves as a server error, uncounted
+						// (and distinguishable from the answer for an unknown account)
+						if len(ret.Results) > 0 {
+							for _, cr := range flatten(cs) {
+								if cr.Check == nil {
+									continue
+								}
+								if ve := ErrResult(cr.Check); ve != nil && carriesErr(ve, ret.Results[len(ret.Results)-1], 0) {
+									return true
+								}
+							}
+						}
 					}
 					return false
 				}, Prune: func(from, to *ssa.BasicBlock) bool {
@@ -115,7 +130,7 @@ func C04(c *Ctx) {
 					continue
 				}
 				if path := q2.Find(); path != nil {
-					r.Bad("C04.fail-report", name, "branch on "+credKinds(cs), pos, "a failed credential check reaches a non-error exit without FireAfter(EventAuthFail): the failure is not counted towards the lock", c.P.DescribePath(path)...)
+					r.Bad("C04.fail-report", name, "branch on "+credKinds(cs), pos, "a failed credential check reaches an exit (a non-error one, or one that hands the checker's verdict back as a server error) without FireAfter(EventAuthFail): the failure is not counted towards the lock", c.P.DescribePath(path)...)
 				} else {
 					r.Ok("C04.fail-report", name, "branch on "+credKinds(cs), pos, "failure side passes FireAfter(EventAuthFail) before any non-error exit")
 				}
@@ -180,7 +195,11 @@ func C04(c *Ctx) {
 		r.Check(found, "C04.wire", "(*ab/lock.Lock).Init", ph+"("+w.ev+")->"+w.fn, pos, "registered", "lock does not register "+w.fn+" on "+ph+"("+w.ev+")")
 	}
 	// constant flag passed by the two wrappers
-	uls := c.P.Func("(*ab/lock.Lock).updateLockedState")
+	uls := c.role("(*ab/lock.Lock).updateLockedState", func() *ssa.Function {
+		return c.calleeWith(c.P.Func("(*ab/lock.Lock).AfterAuthFail"), func(f *ssa.Function) bool {
+			return len(c.userCalls(f, "PutAttemptCount")) > 0
+		})
+	})
 	for _, w := range []struct {
 		fn   string
 		want bool
@@ -203,7 +222,7 @@ func C04(c *Ctx) {
 	c.lockStateStructure(uls)
 
 	// (5) M->S and reset values
-	for _, n := range []string{"(*ab/lock.Lock).updateLockedState", "(*ab/lock.Lock).AfterAuthSuccess", "(*ab/lock.Lock).Lock", "(*ab/lock.Lock).Unlock"} {
+	for _, n := range []string{FuncName(uls), "(*ab/lock.Lock).AfterAuthSuccess", "(*ab/lock.Lock).Lock", "(*ab/lock.Lock).Unlock"} {
 		fn := c.P.Func(n)
 		if c.mustSaveAfterPut("C04.save", fn, nil) == 0 {
 			r.Unknown("C04.save", n, "Put*", "-", "no mutation of the user found")
